@@ -118,7 +118,7 @@ def run(tier):
         elif kind == "need":
             e, name = x
             src, tgt, _ = e["spec_shape"][name]
-            if o != "ext":
+            if not o.endswith("ext"):
                 base, height = map(int, o.split())
                 # the specification may drop untouched bottom words: depth at most the need, same height change
                 if src > base or tgt - src != height - base:
